@@ -209,3 +209,42 @@ Theorem C04_correlation_is_normalised_covariance :
                     (c = 0 -> r = 0) /\ (c <> 0 -> r = c / sqrt (va * vb)).
 Proof. exact correlation_is_normalised_covariance. Qed.
 Print Assumptions C04_correlation_is_normalised_covariance.
+
+(* ---------- DERIVED uncertain complex numbers: the matrix variance(z) reports for any complex
+   result whose components are not declared intermediates and have not been read before is the
+   LPU matrix [[var(re), cov(re,im)], [cov(re,im), var(im)]] of its two real components in the
+   current session (var and cov being the functions proved equal to the double sums above) --
+   for EVERY number instance, binary64 included; the cache-filling reads in between do not
+   disturb the later ones.  Symmetric whatever was cached. ---------- *)
+From Coq Require Import PrimFloat.
+From GTCV Require Import CMatrix.
+
+Theorem C04_complex_result_variance_is_LPU_matrix :
+  forall (C : CNum) (s : cstate (T (cN C))) a j m jr ore ji oim s' v,
+    get_cplx C s a = Ok (j, m, (jr, ore), (ji, oim)) ->
+    cm_v m = None ->
+    node_u (cN C) (ks s) ore = Ok None -> node_u (cN C) (ks s) oim = Ok None ->
+    (exists x y, get_real (cN C) (ks s) jr = Ok (x, y, None)) ->
+    (forall c, exists x y, get_real (cN C) (set_cache (cN C) (ks s) jr ore c) ji = Ok (x, y, None)) ->
+    cprop_v C s a = (s', Ok v) ->
+    lpu_matrix C (ks s) ore oim = Ok v.
+Proof. exact cprop_v_fresh. Qed.
+Print Assumptions C04_complex_result_variance_is_LPU_matrix.
+
+Theorem C04_complex_result_variance_symmetric :
+  forall (C : CNum) (s : cstate (T (cN C))) a j m jr ore ji oim s' vrr vri vir vii,
+    get_cplx C s a = Ok (j, m, (jr, ore), (ji, oim)) -> cm_v m = None ->
+    cprop_v C s a = (s', Ok (vrr, vri, vir, vii)) -> vri = vir.
+Proof. exact cprop_v_symmetric. Qed.
+Print Assumptions C04_complex_result_variance_symmetric.
+
+(* non-vacuity: z1 + z2 in the binary64 instance meets every hypothesis; matrix [[1.25,0],[0,1.25]] *)
+Example C04_complex_result_variance_nonvacuous :
+  exists j m ore oim s',
+    get_cplx cm_C cm_state 4 = Ok (j, m, (4%nat, ore), (5%nat, oim)) /\ cm_v m = None /\
+    node_u (cN cm_C) (ks cm_state) ore = Ok None /\ node_u (cN cm_C) (ks cm_state) oim = Ok None /\
+    (exists x y, get_real (cN cm_C) (ks cm_state) 4 = Ok (x, y, None)) /\
+    (forall c, exists x y, get_real (cN cm_C) (set_cache (cN cm_C) (ks cm_state) 4 ore c) 5 = Ok (x, y, None)) /\
+    cprop_v cm_C cm_state 4 = (s', Ok (0x1.4p+0, 0x0p+0, 0x0p+0, 0x1.4p+0)%float) /\
+    lpu_matrix cm_C (ks cm_state) ore oim = Ok (0x1.4p+0, 0x0p+0, 0x0p+0, 0x1.4p+0)%float.
+Proof. exact cprop_v_fresh_nonvacuous. Qed.
